@@ -241,8 +241,13 @@ def is_combination_feasible(type_graph, combination):
 def _is_recursive_call(func_name, func_body):
     if not func_body:
         return False
-    if isinstance(func_body, ast.FunctionCall):
-        return func_name == func_body.func
+    # The call may be nested anywhere in the body, e.g., `fun f() = A(f()).x`.
+    nodes = [func_body]
+    while nodes:
+        node = nodes.pop()
+        if isinstance(node, ast.FunctionCall) and node.func == func_name:
+            return True
+        nodes.extend(c for c in node.children() if c is not None)
     return False
 
 
